@@ -13,6 +13,10 @@ class GzipMiddleware(Middleware):
 
     def request(self, next, request):
         resp = next()
+        if not hasattr(resp, 'vary'):
+            # e.g., HTTPExceptions returned by an endpoint or by the
+            # catch-all route are bare BaseResponses; pass them through
+            return resp
         # TODO: shortcut redirects/304s/responses without content?
         resp.vary.add('Accept-Encoding')
         if resp.content_encoding or not request.accept_encodings['gzip']:
